@@ -72,9 +72,12 @@ func VerifH_C19_esFraming() {
 	var wantIndex []string
 	deliverable := 0
 	for i := 0; i < n; i++ {
-		k := vf.Choose("app-value", len(appValues)+1)
+		k := vf.Choose("app-value", len(appValues)+2)
 		var ev *pipeline.Event
-		if k == len(appValues) {
+		if k == len(appValues)+1 {
+			// an event whose root is not an object (file.d accepts such events): still one action + one document line
+			ev = verifEvent(`[1,"x"]`, i)
+		} else if k == len(appValues) {
 			ev = verifEvent(`{"app":"x","n":1}`, i)
 			c := vf.Byte("app-byte")
 			ev.Root.Dig("app").MutateToString(string([]byte{c}))
